@@ -500,6 +500,19 @@ func TestC09(t *testing.T) {
 		for i := 0; i < n; i++ {
 			c.Jobs = append(c.Jobs, genJob(rt))
 		}
+		if rapid.Bool().Draw(rt, "bigtables") {
+			// every File declares, in a names table of 65..130 entries, its own name for one dependency all of them
+			// use (a generator that refills one table per File): a File's names are those it was given
+			for i, j := range c.Jobs {
+				m := map[string]string{"tables.example/shared/dep": fmt.Sprintf("dep%d", i)}
+				for k := rapid.IntRange(64, 129).Draw(rt, "tablesize"); k > 0; k-- {
+					m[fmt.Sprintf("tables.example/unused/%d", k)] = "u"
+				}
+				j.Ops = append([]recipe.FileOp{{Op: "ImportNames", Map: m}}, j.Ops...)
+				j.Body = append(j.Body, recipe.S().C("Var").C("Id", "_").C("Op", "=").Add(recipe.Qual("tables.example/shared/dep", "Value")))
+			}
+			r.Class("jobs_with_big_names_tables")
+		}
 		c.Perms = perms(rt, n, 3)
 		r.NonTrivial(recipe.JSON(c.Jobs))
 		r.ClassN("jobs", n)
